@@ -272,6 +272,14 @@ def run(ctx):
     elif not (quiet_fail or k_quiet or lasts_fail) and kbad["c05k_agree false"]:
         ctx.violation("correspondence", {"what": "correspondence Match/Errors.v vs ErrorHandler._handle_if no longer checks (Harness/C05Cmp.c05k_agree); theorem C05_outcome is about the model only",
                                          "disagreeing_case": kcase(sorted(kbad["c05k_agree false"])[0])}, no_input=True)
+    # the translator tie: ErrorCommsManager.do_i_* / ErrorHandler._handle_if as written in the source of the tree under test, regenerated and
+    # (when the text differs from the checked-in Match/ErrSrc.v) re-proved equal to the model
+    import srctie
+    tie = srctie.check(ctx, "errors")
+    if tie["status"] in ("untranslatable", "unproved") and not ctx.violations:
+        ctx.violation("source-tie", {"what": "the translation of ErrorCommsManager.do_i_* / ErrorHandler._handle_if from csvpath/util/error.py is no longer proved equal to the model: theorem handle_if_src_eq (C05_handle_source, C05_decisions_source) "
+                                             "does not check against the source of this tree; the generated cases of this run found no input on which the property fails",
+                                     "theorem": "handle_if_src_eq (C05_handle_source, C05_decisions_source)", "tie": tie}, no_input=True)
     ctx.coverage.update({
         "evaluations": len(kcases) + len(rjobs), "distinct_nontrivial": len({(j[0], j[1], vm_text(j[2]), tuple(sorted(j[3]))) for j, o in zip(rjobs, rres) if o.get("error_lines") or o["exc"]}),
         "rule": "handler: all 64 policies x all 81 validation-mode comments (raise/print/stop/fail each absent, set, negated) x prior (valid, stopped) states (quick: 1, thorough: 4), real "
@@ -284,6 +292,7 @@ def run(ctx):
         "correspondence": f"clean model == handler on {len(kcases) - len(kbad['c05k_agree false'])}/{len(kcases)} calls (with switch quiet_crashes on: {len(kcases) - len(kbad['c05k_agree true'])})",
         "exhaustive": not quick,
     })
+    ctx.coverage["source_tie"] = {"status": tie["status"], "detail": tie["detail"][:400]}
 
 
 def replay(ctx, payload):
